@@ -17,6 +17,7 @@ from harness.common import Check, seed, machinery_failure
 
 MODEL_CFG = dict(period=1000, timespan=4, initial_subsidy=8, halving=2, max_money=30)
 HDR_CFG = dict(period=3, timespan=4, initial_subsidy=8, halving=2, max_money=30)
+HDR2_CFG = dict(period=2, timespan=3, initial_subsidy=8, halving=2, max_money=30)
 
 TX_MUTS = ["ghost", "spent", "otherfork", "nullref", "sameblock", "dupin", "wrongkey", "sig_outs", "sig_refs",
            "sig_garbage", "blank", "cbdata", "overspend", "zeroout", "overmax", "noouts", "noins", "duptx", "dupref2"]
@@ -205,6 +206,19 @@ class RandomTree:
                 mut = "reward%+d" % reward_delta
             else:
                 hmut = rng.choice(HDR_MUTS + ["future"])
+        # a candidate on a retarget boundary of a side branch whose target is computed from the *active* chain's period start
+        if not hmut and not mut and h % w.cfg.period == 0 and rng.random() < 0.5:
+            try:
+                cs = self.rec.cs
+                alt_blk = cs.by_height_at_head()[h - w.cfg.period]
+                own = w.ancestor(indep.blockid(w.by_abs[parent]), h - w.cfg.period)
+                if alt_blk.hash() != own.hash() and alt_blk.timestamp != own.timestamp:
+                    alt_abs = [a for a in self.stored if w.by_abs[a].hash() == alt_blk.hash()]
+                    if alt_abs:
+                        hmut = "target_otherchain"
+                        self._altstart = alt_abs[0]
+            except Exception:
+                pass
         sub = w.cfg.subsidy(h)
         rw = sub + fees + reward_delta
         cb_outs = [{"v": rw, "k": rng.randint(1, self.nkeys)}] if rw > 0 else []
@@ -217,6 +231,8 @@ class RandomTree:
              "sizeok": True, "mut": hmut, "txs": [cb] + [{k: v for k, v in t.items() if k not in ("_pick", "_fee")}
                                                           for t in txs]}
         now = ts + now_slack
+        if hmut == "target_otherchain":
+            d["altstart"] = self._altstart
         if hmut == "badpow":
             d["powok"] = False
         elif hmut == "ts_equal":
@@ -510,6 +526,25 @@ def run(pid, tier, replay=None):
             chk.case(json.dumps(rec.abstract), nontrivial=True)
         chk.extra["random_driver_mutations(mutation,verdict)->count"] = {"%s/%s" % k: v for k, v in sorted(muts.items())}
         judge(chk, traces, recs, cfg_hdr, focus)
+        # period 2 / timespan 3: retarget boundaries on side branches whose period-start block differs from the active chain's
+        mc("MC_LedgerHdr2.cfg")
+        cfg_hdr2 = sk.Cfg(**HDR2_CFG)
+        sk.apply_cfg(cfg_hdr2)
+        hists2, rg2 = gen_hists("MC_LedgerHdr2Sim.cfg", 400 if quick else 4000, 16, sd + 6)
+        chk.states += rg2.generated
+        hists2 = [h for h in hists2 if any(s["blk"]["mut"] == "target_otherchain" for s in h)] + hists2[:40]
+        for h in hists2:
+            chk.case(json.dumps([[s["res"], s["rule"], s["blk"]["mut"], s["blk"]["parent"], s["blk"]["ts"]] for s in h]),
+                     nontrivial=any(s["blk"]["mut"] == "target_otherchain" for s in h))
+        traces, recs = replay_batch(hists2, cfg_hdr2, keys, tid)
+        tid += len(traces)
+        judge(chk, traces, recs, cfg_hdr2, focus)
+        traces, recs, muts2 = random_batch(30 if quick else 300, 18, cfg_hdr2, keys, rng, tid, hdr=True, p_mut=0.1)
+        tid += len(traces)
+        for rec in recs:
+            chk.case(json.dumps(rec.abstract), nontrivial=True)
+        chk.extra["random_driver_mutations_period2"] = {"%s/%s" % k: v for k, v in sorted(muts2.items())}
+        judge(chk, traces, recs, cfg_hdr2, focus)
         chk.extra["rule"] = ("header-only behaviours with period 3 / timespan 4 crossing retarget boundaries on forks, every single "
                              "header rule broken; non-trivial = an accepted block sits on a retarget boundary")
     else:
